@@ -1076,12 +1076,12 @@ impl BlockRanges {
 //@hint before "// Nothing to remove"
             proof { assert(self@ =~= old(self)@.difference(r_set(*range))); }
 //@sub E9 "self .0 .drain(start_idx..=end_idx) .collect::<SmallVec<[_; 2]>>();" => "vx_drain(&mut self.0, start_idx, end_idx);"
-//@hint before "if range.end() < last_range.end() {"
+//@hint before "if range.end() < last_range.end()"
         proof {
             assert(touches(old(self).0@[start_idx as int], *range));
             assert(touches(old(self).0@[end_idx as int], *range));
         }
-//@hint before "if first_range.start() < range.start() {"
+//@hint before "if first_range.start()"
         let ghost t1 = self.0@;
 //@hint before "Ok(())" 2
         proof {
